@@ -146,6 +146,10 @@ RenderEv ==
         /\ (E.c01.on /\ E.status # "nil") => Report("C01", IF E.c01.known # "" THEN E.c01.known \o ":" \o E.c01.file ELSE "render fails: " \o E.c01.file)
         /\ (E.c01.on /\ E.status = "nil" /\ ~(E.c01.parses /\ E.c01.pkgeq /\ E.c01.impeq /\ E.c01.asteq))
              => Report("C01", IF E.c01.known # "" THEN E.c01.known \o ":" \o E.c01.file ELSE "differs: " \o E.c01.file)
+        \* C15 (file level): package comments are the package doc, headers are kept apart, the canonical path is well formed
+        /\ (E.c15f.on /\ ~E.c15f.docok) => Report("C15", "package comments are not exactly the package doc")
+        /\ (E.c15f.on /\ ~E.c15f.headok) => Report("C15", "header comment lost or part of the package doc")
+        /\ (E.c15f.on /\ ~E.c15f.canonok) => Report("C15", "canonical import path annotation")
         \* C02: a successful render is valid Go and exactly gofmt of the raw rendering; invalid compositions are errors
         /\ (E.status = "panic" \/ E.rawstatus = "panic") => Report("C02", "panic")
         /\ (E.status = "nil" /\ E.rawstatus = "nil" /\ ~E.fmteq) => Report("C02", "output is not gofmt of the raw rendering")
